@@ -224,11 +224,52 @@ class StubPysam:
 
 
 class Out:
+    name = "o.gaf"
+
     def __init__(self):
         self.parts = []
+        self.closed = False
 
     def write(self, s):
         self.parts.append(s)
+
+    def close(self):
+        self.closed = True
+
+    def flush(self):
+        pass
+
+
+class SysProxy:
+    """the module's `sys`: stdout is the capture, everything else (exit, ...) is the real module"""
+
+    def __init__(self, out):
+        self.stdout = out
+
+    def __getattr__(self, k):
+        import sys as _s
+
+        return getattr(_s, k)
+
+
+class OsProxy:
+    """the module's `os`: removing the (captured) output file is a no-op, everything else is the real module"""
+
+    def remove(self, path):
+        pass
+
+    unlink = remove
+
+    def __getattr__(self, k):
+        import os as _o
+
+        return getattr(_o, k)
+
+
+def entry_of(W, B, nrec, T):
+    """which public entry point the schedule is driven through: the collecting function itself, or the command function writing
+    to standard output / to a file"""
+    return ("realign_gaf", "run_realign-stdout", "run_realign-file")[(W + B + nrec + T) % 3]
 
 
 def record_shape(i, salt):
@@ -275,9 +316,20 @@ def run_schedule(R, GA, W, B, nrec, T, faults, script=None):
     os.environ["GAFTOOLS_VERIF_BATCH_SIZE"] = str(B)
     os.environ["MARSCHALL_LAB_GAFTOOLS_VERIF"] = "1"
     out = Out()
+    std = Out()
     outcome = "ok"
+    entry = entry_of(W, B, nrec, T if script is None else T - 1000)
+    R.sys = SysProxy(std)
+    R.open = lambda path, mode="r", *a, **k: out
+    R.os = OsProxy()
+    R.log_memory_usage = lambda *a, **k: None
     try:
-        R.realign_gaf("g.gaf", "g.gfa", "r.fa", out, W)
+        if entry == "realign_gaf":
+            R.realign_gaf("g.gaf", "g.gfa", "r.fa", out, W)
+        elif entry == "run_realign-stdout":
+            R.run_realign("g.gaf", "g.gfa", "r.fa", None, W)
+        else:
+            R.run_realign("g.gaf", "g.gfa", "r.fa", "o.gaf", W)
     except SystemExit as e:
         outcome = "exit:%s" % (e.code,)
     except IdleBudget:
@@ -287,7 +339,7 @@ def run_schedule(R, GA, W, B, nrec, T, faults, script=None):
     except Exception as e:
         outcome = "exc:%s: %s" % (type(e).__name__, str(e)[:120])
     names = []
-    for p in out.parts:
+    for p in out.parts + std.parts:
         ok = isinstance(p, str) and p.endswith("\n") and p.count("\t") >= 11 and p.count("\n") == 1
         names.append(p.split("\t")[0] if ok else "malformed:%r" % (p,))
     # multiprocessing joins non-daemon children when the interpreter exits; a child that still has results to deliver
